@@ -70,5 +70,7 @@ def run(rep, tier, seed):
                            "collinear and repeated vertices, 1-unit sliver, star, combs with 14 "
                            "and 26 vertices, square, triangle) x vertex limits (0, 4, 5..12) x "
                            "precisions for fracture; x 8 sorted cut lists (inside, on and outside "
-                           "the bounding box, repeated, empty) x 2 axes for slice; 196 exact "
+                           "the bounding box, repeated, empty) x 2 axes for slice; skylines of 442 and 602 "
+                           "vertices in both walking directions x limits 5, 8 (area sum and "
+                           "cover count on sampled cells); 196 exact "
                            "sample points; distinct_nontrivial = cases")
